@@ -11,3 +11,4 @@ import GoImap.Props.C13
 #print axioms GoImap.C13.complete_exactly_once
 #print axioms GoImap.C13.f26_reorder_only_counterexample
 #print axioms GoImap.C13.f26_repaired_on_that_schedule
+#print axioms GoImap.C13.completion_never_blocks
